@@ -72,7 +72,7 @@ Definition fstep (L : list string) (s : hg) (o : op) : res :=
       bind (if multi then ok s else fmerge L RnFirst MrFirst None s)
       (fun s1 => bind (if sing then ok s1 else guard L "remove_edges_from" s1 (remove_edges_from (singletons s1) s1))
       (fun s2 => bind (if iso then ok s2 else guard L "remove_nodes_from" s2 (remove_nodes_from (isolates s2) false true s2))
-      (fun s3 => bind (if conn then flcc L s3 else ok s3)
+      (fun s3 => bind (if conn && negb (match h_node s3 with [] => true | _ => false end) then flcc L s3 else ok s3)
       (fun s4 => if relabel then guard L "clear" s4 (relabel_inplace "label" s4) else ok s4))))
   | ORelabel la => guard L "clear" s (relabel_inplace la s)
   | OLargestCC => flcc L s
@@ -137,7 +137,7 @@ Definition sfstep (L : list string) (s : hg) (o : sop) : res :=
       end
   | SCleanup iso conn rl =>
       bind (if iso then ok s else guard L "remove_nodes_from" s (sc_remove_nodes_from (isolates s) s))
-      (fun s1 => bind (if conn then
+      (fun s1 => bind (if conn && negb (match h_node s1 with [] => true | _ => false end) then
                          match first_longest (components s1) with
                          | None => raise s1 ValueError
                          | Some c => guard L "remove_nodes_from" s1 (sc_remove_nodes_from (sdiff (keys (h_node s1)) c) s1)
